@@ -9,8 +9,12 @@ spec -> code: DepSet_Export enumerates every structure (<= N nodes) of each flav
               LICENSE, RESTRICT, SRC_URI with renames, REQUIRED_USE) rendered to tokens, plus every
               one-token corruption; the text goes through the real DepSet.parse of that flavour,
               str(), re-parse, and evaluate_depset(U) for every U.
+              The export also holds the nesting family: a group of every kind nested directly in a
+              group of every kind (depth 2-3, >= 2 distinct members each) with a conditional beside /
+              inside / around it.
 code -> spec: seeded grammar-generated strings with realistic leaves (versioned atoms, blockers,
-              URIs ...) and random token-level corruptions, same observations.
+              URIs ...), among them nests of operator groups (same and mixed kinds, depth 2-3) with
+              conditionals, and random token-level corruptions, same observations.
 All observations are judged by DepSet_Trace (meaning compared over every flag set U and every set
 T of satisfied leaf tokens, so documented normalisations such as `|| ( a )` -> `a` are no alarms).
 
@@ -201,6 +205,28 @@ def gen_words(r_, fl, depth, leaves):
     return out
 
 
+def gen_nest(r_, fl, depth, leaves):
+    """Operator groups nested in operator groups (same and mixed kinds), every group with 2-3 members,
+    conditionals sprinkled over members and one beside the nest."""
+    def group(d):
+        op = r_.choice(OPS[fl])
+        out = ([op] if op else []) + ["("]
+        inner_at = r_.randrange(3) if d > 1 else -1
+        for k in range(r_.randint(2, 3)):
+            if k == inner_at or (d > 1 and r_.random() < 0.25):
+                m = group(d - 1)
+            else:
+                m = [r_.choice(leaves)]
+            if r_.random() < 0.2:
+                m = [("!" if r_.random() < 0.4 else "") + r_.choice(FLAGS[: NFLAGS[0]]) + "?", "("] + m + [")"]
+            out += m
+        return out + [")"]
+
+    tail = [("!" if r_.random() < 0.4 else "") + r_.choice(FLAGS[: NFLAGS[0]]) + "?", "(", r_.choice(leaves), ")"]
+    words = group(depth)
+    return words + tail if r_.random() < 0.5 else tail + words
+
+
 def corrupt(r_, words, fl):
     words = list(words)
     for _ in range(r_.randint(1, 2)):
@@ -295,7 +321,10 @@ def run(ck):
     for k in range(ck.pick(500, 6000)):
         fl = FLAVOURS[k % len(FLAVOURS)]
         leaves = r_.sample(VOCAB[fl], ck.pick(3, 4))
-        words = gen_words(r_, fl, r_.randint(1, ck.pick(2, 3)), leaves)
+        if OPS[fl] and r_.random() < 0.4:
+            words = gen_nest(r_, fl, r_.randint(2, 3), r_.sample(VOCAB[fl], 5))
+        else:
+            words = gen_words(r_, fl, r_.randint(1, ck.pick(2, 3)), leaves)
         corrupted = r_.random() < 0.4
         if corrupted:
             words = corrupt(r_, words, fl)
